@@ -19,6 +19,7 @@ static volatile int tgt_go, tgt_finished, tgt_published;
 static myth_thread_t tgt_thread;
 static void timed_probe_cb(int site, const void *p, uint64_t step) { (void)step; if (site == MYTH_VP_FREE_READY2 && p == (const void *)tgt_thread) tgt_published = 1; }
 #define NS 1000000000ULL
+static uint64_t clk_div;
 
 static void gen(mvsim_rng *r, long *p, int tier) {
   wl_gen_common(r, &p[Q_NWORKERS], &p[Q_QSIZE], &p[Q_PFIRST], 16);
@@ -50,6 +51,10 @@ static uint64_t duration(long i) {
     case 4: return 1000 * (1 + h % 5000);
     default: return 1000000 * (1 + h % 900);
   }
+}
+static void set_scale(long i) {
+  uint64_t d = duration(i);
+  mvsim_set_clock_scale(d / clk_div + 1, d > 1000000000000ULL ? d / 2 : d * 3 + 1);
 }
 static void do_sleep(long i) {
   uint64_t h = wl_mix(P[Q_SEED], 90 + i), d = duration(i);
@@ -124,8 +129,16 @@ static void *holder(void *a) {
   tm_interest--;
   return a;
 }
-static void deadline_for(long i, struct timespec *dl, uint64_t *dl_ns) {
-  uint64_t h = wl_mix(P[Q_SEED], 140 + i), now = mvsim_now_ns(), d = duration(i);
+/* attempt > 0 (retry after a timeout): short waits only, and the clock is rescaled to them -- repeating a
+   decades-long deadline would walk the 64-bit nanosecond clock off its end */
+static void deadline_for2(long i, int attempt, struct timespec *dl, uint64_t *dl_ns);
+static void deadline_for(long i, struct timespec *dl, uint64_t *dl_ns) { deadline_for2(i, 0, dl, dl_ns); }
+static void deadline_for2(long i, int attempt, struct timespec *dl, uint64_t *dl_ns) {
+  uint64_t h = wl_mix(P[Q_SEED], 140 + i + 1000 * (uint64_t)attempt), now = mvsim_now_ns(), d = duration(i);
+  if (attempt > 0) {
+    d = 1000 * (1 + h % 5000);
+    mvsim_set_clock_scale(d / clk_div + 1, d * 3 + 1);
+  }
   uint64_t t;
   switch (h % 4) { case 0: t = now > d + 1 ? now - d - 1 : 0; break;   /* past */
                    case 1: t = now; break;                              /* present */
@@ -171,8 +184,8 @@ static void do_timedjoin(long i) {
     while (!tgt_published && spins++ < 200) { myth_yield(); mvsim_user_point(); }
   }
   int certainly_done = tgt_published;
-  for (;;) {
-    deadline_for(i, &dl, &dl_ns);
+  for (int attempt = 0; ; attempt++) {
+    deadline_for2(i, attempt, &dl, &dl_ns);
     void *r = 0;
     int rc = myth_timedjoin(t, &r, &dl);
     if (rc == 0) { MVH_CHECK(r == (void *)(i + 11) && tgt_finished, "C01-JOIN-VALUE", "timedjoin value %p finished=%d", r, tgt_finished); break; }
@@ -186,13 +199,14 @@ static void do_timedjoin(long i) {
 static void run(const long *p, mvsim_runcfg *cfg, mvsim_runstats *st) {
   P = p;
   sib_progress = 0; sib_stop = 0; tm_occ = tm_interest = 0; tm_enter = 0;
-  /* scale the virtual clock so that the longest wait costs 5..300 clock reads */
-  uint64_t maxd = 1;
-  for (long i = 0; i < p[T_NCALLS]; i++) if (duration(i) > maxd) maxd = duration(i);
-  uint64_t div = 5 + wl_mix(p[Q_SEED], 3) % 300;
-  if (p[T_MODE] == 3 && div < 80) div += 80;
-  cfg->clk_read_ns = maxd / div + 1;
-  cfg->clk_jump_ns = maxd > 1000000000000ULL ? maxd / 2 : maxd * 3 + 1;
+  /* the virtual clock is scaled PER CALL so that each wait costs 5..300 clock reads (set_scale() below).
+     (One scale for the whole run, derived from the longest wait, let the short calls before a
+     decades-long one each push the 64-bit nanosecond clock forward by ~10^18: it wrapped around, time
+     ran backwards and the last sleep never ended -- a false HANG found by the thorough soak.) */
+  clk_div = 5 + wl_mix(p[Q_SEED], 3) % 300;
+  if (p[T_MODE] == 3 && clk_div < 80) clk_div += 80;
+  cfg->clk_read_ns = duration(0) / clk_div + 1;
+  cfg->clk_jump_ns = duration(0) * 3 + 1;
   cfg->budget1 += 200000; cfg->budget2 += 2000000;
   wl_begin(cfg, p[Q_NWORKERS], 32, p[Q_QSIZE], (int)p[Q_PFIRST]);
   wl_set_probe_cb(timed_probe_cb);
@@ -201,6 +215,7 @@ static void run(const long *p, mvsim_runcfg *cfg, mvsim_runstats *st) {
   for (long i = 0; i < p[T_NSIB]; i++) sib[i] = myth_create(sibling, 0);
   for (long i = 0; i < p[T_NCALLS]; i++) {
     int mode = (int)p[T_MODE];
+    set_scale(i);
     if (mode == 3 && !(p[Q_NWORKERS] == 2 && !p[Q_PFIRST] && p[T_NSIB] == 0)) mode = 0;   /* overrides/shrinking broke the set-up */
     switch (mode) { case 0: do_sleep(i); break; case 1: do_timedlock(i); break; case 3: do_sleep_steal(); break; default: do_timedjoin(i); }
     mvsim_user_point();
